@@ -150,3 +150,57 @@ func runC14Interleaved(x *X) {
 		}
 	})
 }
+
+// family "re-entrant-writer": while table X is being rendered, its writer renders table Y in the same format (a log
+// sink that formats its own status table, a writer that flushes a summary).  Both outputs must be what the tables
+// give when rendered alone.
+type c14NestWriter struct {
+	buf   strings.Builder
+	calls int
+	at    int // 0: on every call
+	inner func() (string, error)
+	outs  []string
+}
+
+func (w *c14NestWriter) Write(p []byte) (int, error) {
+	w.calls++
+	if w.at == 0 || w.calls == w.at {
+		o, _ := w.inner()
+		w.outs = append(w.outs, o)
+	}
+	return w.buf.Write(p)
+}
+
+func runC14Reentrant(x *X) {
+	tables, formats := c14ilTables(), c14ilFormats()
+	x.Explore("re-entrant-writer", ExploreOpts{ShardDepth: 2, Bound: fmt.Sprintf("%d formats x ordered pairs of 3 tables: the outer table's writer renders the inner table (fresh wrapper, same format) before accepting Write #1 | #2 | every Write", len(formats))}, func(c *Chooser) {
+		f := formats[c.Choose(len(formats))]
+		to, ti := c.Choose(len(tables)), c.Choose(len(tables))
+		at := c.Choose(3)
+		mk := func(i int) tabular.Table { t := tabular.New(); tables[i].build(t); return t }
+		wantOuter, werrO := f.wrap(mk(to)).Render()
+		wantInner, _ := f.wrap(mk(ti)).Render()
+		outer, inner := mk(to), mk(ti)
+		w := &c14NestWriter{at: []int{1, 2, 0}[at], inner: func() (string, error) { return f.wrap(inner).Render() }}
+		c.Logf("%s: table %c rendered to a writer that renders table %c before accepting Write #%d (0 = every)", f.name, "XYZ"[to], "XYZ"[ti], w.at)
+		x.Transition(1)
+		x.Nontrivial(fmt.Sprint(f.name, to, ti, at))
+		var err error
+		if p, val, site := Safe(func() { err = f.wrap(outer).RenderTo(w) }); p {
+			x.FailSite("C14.no_panic", []string{"re_entrant_writer", "panic", "format:" + f.name}, site, "%s panicked: %v", f.name, val)
+			return
+		}
+		tags := []string{"re_entrant_writer", "format:" + f.name}
+		x.Clause("C14.same_bytes_as_first_render")
+		if w.buf.String() != wantOuter || (err != nil) != (werrO != nil) {
+			x.Fail("C14.same_bytes_as_first_render", tags, "outer table %c rendered as %s while its writer rendered table %c gives (err %v)\n%s\nbut alone it gives (err %v)\n%s", "XYZ"[to], f.name, "XYZ"[ti], err, w.buf.String(), werrO, wantOuter)
+			return
+		}
+		for _, o := range w.outs {
+			if o != wantInner {
+				x.Fail("C14.same_bytes_as_first_render", append(tags, "inner_render"), "inner table %c rendered from inside the outer render gives\n%s\nbut alone it gives\n%s", "XYZ"[ti], o, wantInner)
+				return
+			}
+		}
+	})
+}
